@@ -231,6 +231,26 @@ theorem tie_userListDetour :
       "if ok && userAttrsCachedFromLoginCluster[k]", "if !userAttrsCachedFromLoginCluster[k]",
       "if len(batchOpts.Updates) > 0", "if err != nil"] := by decide
 
+/-! ### the transport under the `hlist` correspondence op (not modelled, only tied and exercised)
+
+`arvados.Client` sends GET parameters of ≥ 1000 encoded bytes as a POST form with
+X-Http-Method-Override; the controller router parses the form *before* it rewrites the method (Go's
+ParseForm ignores the body of a GET). The `hlist` generator stream is built around that threshold. -/
+
+theorem tie_clientPostThreshold : clientInts = [1000] ∧
+    clientConds = ["if ok", "if c.APIHost == \"\"", "if c.loadedFromEnv", "if err != nil", "if urlValues == nil",
+      "if body != nil || ((method == \"GET\" || method == \"HEAD\") && len(urlValues.Encode()) < 1000)",
+      "if err != nil", "if err != nil", "if (method == \"GET\" || method == \"HEAD\") && body != nil"] := by decide
+
+theorem tie_routerMethodOverride : routerServeSkeleton =
+    ["case {", "}", "case {", "}",
+     "if r.Method == \"OPTIONS\" {", "return", "}",
+     "if r.Method == \"POST\" {",
+     "call r.ParseForm",
+     "call r.FormValue => m",
+     "if m != \"\" {", "} else {", "call r.Header.Get => m", "if m != \"\" {", "}", "}", "}",
+     "call rtr.mux.ServeHTTP"] := by decide
+
 /-! ### conn.go chooseBackend (`ArvVerif.C20.chooseBackend`) -/
 
 theorem tie_chooseBackend :
